@@ -499,6 +499,41 @@ impl Board {
     }
 }
 
+/// Verification hook: every field of a [`Board`].
+#[cfg(feature = "verif-hooks")]
+#[derive(Debug, Clone, PartialEq)]
+pub struct VerifBoard {
+    pub digital_input1: u8,
+    pub digital_output1: u8,
+    pub digital_output2: u8,
+    pub temp: f32,
+    pub dasr: u8,
+    pub daisr: u8,
+    pub daicr: u8,
+    pub analog_inputs: [f32; 2],
+    pub analog_outputs: [f32; 2],
+    pub fan_rpm: usize,
+    pub uio_dir: [bool; 3],
+}
+
+#[cfg(feature = "verif-hooks")]
+impl Board {
+    /// Verification hook: overwrite every field.
+    pub fn verif_restore(&mut self, s: &VerifBoard) {
+        self.digital_input1 = s.digital_input1;
+        self.digital_output1 = s.digital_output1;
+        self.digital_output2 = s.digital_output2;
+        self.temp = s.temp;
+        self.dasr = DASR::from_bits_truncate(s.dasr);
+        self.daisr = DAISR::from_bits_truncate(s.daisr);
+        self.daicr = DAICR::from_bits_truncate(s.daicr);
+        self.analog_inputs = s.analog_inputs;
+        self.analog_outputs = s.analog_outputs;
+        self.fan_rpm = s.fan_rpm;
+        self.uio_dir = s.uio_dir;
+    }
+}
+
 #[cfg(test)]
 mod tests {
     use super::*;
